@@ -75,7 +75,7 @@ def from_project(proj):
 PROPS['C01'] = dict(
     theorems=['C01_generic_purl', 'C01_typed_purl', 'C01_same_string_G', 'C01_same_string_P'],
     accepts=lambda c: c[0] in 'PS' and kind_of(c) in 'gst',
-    gen=lambda tier, rng: chain(parse_stream(tier, rng, ('g', 't', 's'), TOK_Q, TOK_T), gens.gen_utf8(Q(tier, 2, 3), ('g', 't'))),
+    gen=lambda tier, rng: chain(parse_stream(tier, rng, ('g', 't', 's'), TOK_Q, TOK_T), gens.gen_utf8(Q(tier, 2, 3), ('g', 't')), (c for c in gens.gen_lengths() if c[0] == 'P')),
     compare=impl_accepts(lambda c, p: (vals(p[0]), vals(p[1]), canon(p[0]) == canon(p[1]))),
     rule='conformance corpus and mutations of it, exhaustive bounded token language (6 families), random legal spellings of random component tuples; '
          'parse + canonical string + re-parse compared between extracted model and crate for every string the crate accepts',
@@ -227,7 +227,7 @@ PROPS['C06'] = dict(
     gen=lambda tier, rng: chain(gens.gen_tok(Q(tier, {'head': 3, 'path': 3, 'qual': 3, 'sub': 3}, TOK_T), ('g', 't')), gens.gen_fault(rng, Q(tier, 10000, 100000)),
                                 gens.gen_corpus(rng, Q(tier, 3000, 50000)), gens.gen_build(rng, Q(tier, 15000, 200000), 1, ('g', 't', 's', 'b', 'o')),
                                 gens.gen_qops(rng, Q(tier, 3000, 50000)), gens.gen_cs(rng, Q(tier, 3000, 50000)), gens.gen_pt(rng, 500, 2), gens.gen_comb(rng, 500),
-                                c06_odd(rng), gens.gen_types(), gens.gen_slot(('g', 't')), gens.gen_shape(rng, 500), c06_long(rng, Q(tier, 0, 60))),
+                                c06_odd(rng), gens.gen_types(), gens.gen_slot(('g', 't')), gens.gen_shape(rng, 500), c06_long(rng, Q(tier, 0, 60)), gens.gen_lengths()),
     project=c06_proj,
     rule='every case of every other stream runs under catch_unwind in a build with overflow checks and debug assertions; the observable is where PANIC occurs (and HANG: a watchdog in the harness ends a call that has not returned after 10 s); '
          'documented panics (Index of an absent key, insert_typed with an invalid KEY, Display of an invalid user type) are predicted by the model',
@@ -244,6 +244,7 @@ def c08_gen(tier, rng):
             else:
                 yield l
     yield from pairs(gens.gen_names(rng, tier))
+    yield from pairs(gens.gen_lengths(('t',)))
     yield from pairs(gens.gen_spell(rng, Q(tier, 10000, 100000), ('t',)))
     yield from pairs(gens.gen_tok(Q(tier, {'typed': 4}, {'typed': 5}), ('t',)))
     yield from pairs(gens.gen_corpus(rng, Q(tier, 1000, 20000), ('t',)))
@@ -322,7 +323,7 @@ PROPS['C09'] = dict(
 PROPS['C10'] = dict(
     accepts=lambda c: c[0] in 'PSB',
     gen=lambda tier, rng: chain(parse_stream(tier, rng, ('g', 't', 's'), {'head': 3, 'path': 3, 'qual': 3, 'sub': 3, 'typed': 3}, TOK_T, (15000, 200000), (2000, 30000)),
-                                gens.gen_build(rng, Q(tier, 30000, 400000), 1, ('g', 't', 's', 'b', 'o')), gens.gen_names(rng, 'quick')),
+                                gens.gen_build(rng, Q(tier, 30000, 400000), 1, ('g', 't', 's', 'b', 'o')), gens.gen_names(rng, 'quick'), gens.gen_lengths()),
     compare=on_same_value(lambda c, p: (vals(p[2]), canon(p[0]) == canon(p[2]))),
     rule='every PURL produced by the parser and builder streams, for String, SmallString, Cow borrowed/owned and PackageType: the result of into_builder().build() compared wherever model and crate hold the same value; idempotence itself checked by the oracle on every value',
 )
@@ -382,7 +383,7 @@ def c12_builders(rng, n):
             yield f'Q i:{gens.hx("checksum")}:{gens.hx("md5:00")},tC:{t1},tG,g:{gens.hx("checksum")}'
 PROPS['C12'] = dict(
     accepts=lambda c: c[0] in 'CcPSBQ',
-    gen=lambda tier, rng: chain(gens.gen_cs(rng, Q(tier, 30000, 400000)), c12_purls(rng, Q(tier, 10000, 100000)), gens.gen_slot(('g',)), c12_builders(rng, 0)),
+    gen=lambda tier, rng: chain(gens.gen_cs(rng, Q(tier, 30000, 400000)), c12_purls(rng, Q(tier, 10000, 100000)), gens.gen_slot(('g',)), c12_builders(rng, 0), (c for c in gens.gen_lengths(('g',)) if 'checksum' in gens.unhx(c.split(' ')[-1]))),
     compare=c12_compare,
     rule='checksum operation sequences (insert / insert_raw / remove over 15 algorithm spellings incl. case variants, titlecase letters, empty and non-ASCII), texts, '
          'PURLs and builders carrying the same entry set in random order and case; entries, canonical text, parse-back and typed decode compared; '
@@ -398,6 +399,10 @@ def c13_gen(tier, rng):
         a = l.split(' ')
         yield l
         for k in 'sbo': yield ' '.join([a[0], k] + a[2:])
+    for l in gens.gen_lengths(('g',)):
+        a = l.split(' ')
+        yield l
+        for k in ('s' if a[0] == 'P' else 'sbo'): yield ' '.join([a[0], k] + a[2:])
 def c13_compare_factory():
     st = {}
     def cmp(c, a, m):
@@ -529,7 +534,7 @@ PROPS['C17'] = dict(
     features=FEATS,
     gen=lambda tier, rng: chain(gens.gen_tok(Q(tier, {'head': 3, 'path': 3, 'qual': 3, 'sub': 3}, TOK_T), ('g', 's', 't')), gens.gen_spell(rng, Q(tier, 20000, 200000), ('g', 's', 't')),
                                 gens.gen_fault(rng, Q(tier, 10000, 100000)), gens.gen_build(rng, Q(tier, 20000, 200000), 1, ('g', 's', 'b', 'o', 't')),
-                                gens.gen_qops(rng, Q(tier, 2000, 20000)), gens.gen_cs(rng, Q(tier, 2000, 20000)), gens.gen_types(), gens.gen_slot(('g', 's', 't')), gens.gen_utf8(2, ('g', 's'))),
+                                gens.gen_qops(rng, Q(tier, 2000, 20000)), gens.gen_cs(rng, Q(tier, 2000, 20000)), gens.gen_types(), gens.gen_slot(('g', 's', 't')), gens.gen_utf8(2, ('g', 's')), gens.gen_lengths()),
     compare=c17_compare, extra=c17_extra,
     rule='one deterministic stream (token language, seeded spellings, faults, builder, qualifier and checksum sequences) run through the harness built with '
          '{default}, {no features}, {package-type}, {default+serde}; every transcript compared line by line with the default one and with the extracted model '
